@@ -101,7 +101,7 @@ macro_rules! c06_family {
     }};
 }
 
-fn check_c06(l: &mut Local, long: &HV, rng: &mut Rng) {
+pub fn check_c06(l: &mut Local, long: &HV, rng: &mut Rng) {
     let mut short = long.clone();
     short.bh2.truncate(32);
     c06_family!(l, long, ssdeep::LongRawFuzzyHash, ssdeep::LongFuzzyHash, ssdeep::LongDualFuzzyHash, rng);
@@ -370,7 +370,7 @@ macro_rules! c07_family {
     }};
 }
 
-fn check_c07(l: &mut Local, long: &HV, rng: &mut Rng) {
+pub fn check_c07(l: &mut Local, long: &HV, rng: &mut Rng) {
     let mut short = long.clone();
     short.bh2.truncate(32);
     c07_family!(l, long, ssdeep::LongRawFuzzyHash, ssdeep::LongFuzzyHash, ssdeep::LongDualFuzzyHash, rng);
